@@ -96,6 +96,7 @@ func (f *frame) call(res ssa.Value, c *ssa.CallCommon, ins ssa.Instruction) {
 		for _, a := range c.Args {
 			args = append(args, f.val(a))
 		}
+		f.atCallAssertions(callee.Name(), c, args, pos)
 		setRes(f.callFunc(callee, args, nil, c, pos))
 		return
 	case *ssa.MakeClosure:
@@ -862,4 +863,24 @@ func (f *frame) applyCallback(ct *Contract, p *ssa.Parameter, c *ssa.CallCommon,
 	}
 	vc.assumed["callback contract "+short+" (assumed of every function passed for this parameter)"] = true
 	return results
+}
+
+// atCallAssertions: obligations the enclosing function's contract attaches to its calls of the named callee.
+// The clauses see the call's arguments as arg0, arg1, ... (receiver first), the function's parameters and locals.
+func (f *frame) atCallAssertions(callee string, c *ssa.CallCommon, args []Val, pos token.Pos) {
+	if f.contract == nil || !f.top || len(f.contract.AtCalls[callee]) == 0 {
+		return
+	}
+	env := f.specEnv(f.st)
+	env.atBlock = f.cur
+	env.where = "atcall " + callee
+	for i, a := range args {
+		if a.t != "" {
+			env.vars[fmt.Sprintf("arg%d", i)] = specVal{term: a.t, typ: c.Args[i].Type()}
+		}
+	}
+	f.atCallSeen[callee]++
+	for _, cl := range f.contract.AtCalls[callee] {
+		f.oblige("atcall", callee+"."+cl.Label, cl.Props, env.trBool(cl.Expr), pos)
+	}
 }
